@@ -295,7 +295,13 @@ type Portfolio struct {
 	Queries  int
 	Unknown  int
 	Errors   int
+	// cross-check: every crossEvery-th decided query is also put to the next solver of the portfolio; a definite
+	// answer that differs is a disagreement (the job is then reported as an engine error, never as success)
+	crossEvery    int
+	CrossChecked  int
+	Disagreements int
 	lastSat  *Proc // solver that answered the last sat (for Model)
+	lastDecider *Proc
 	queryLog []string
 }
 
@@ -350,6 +356,7 @@ func (p *Portfolio) Check(lits []*Term) string {
 		r := pr.check(lits)
 		if r == "sat" || r == "unsat" {
 			res = r
+			p.lastDecider = pr
 			if r == "sat" {
 				p.lastSat = pr
 			}
@@ -361,6 +368,27 @@ func (p *Portfolio) Check(lits []*Term) string {
 	}
 	if res == "unknown" {
 		p.Unknown++
+	} else if p.crossEvery > 0 && p.Queries%p.crossEvery == 0 && len(p.order) > 1 {
+		// ask a different solver the same question
+		var decidedBy string
+		for _, name := range p.order {
+			if pr, ok := p.procs[name]; ok && pr == p.lastDecider {
+				decidedBy = name
+			}
+		}
+		for _, name := range p.order {
+			if name == decidedBy || name == "z3new" {
+				continue
+			}
+			r2 := p.proc(name).check(lits)
+			if r2 == "sat" || r2 == "unsat" {
+				p.CrossChecked++
+				if r2 != res {
+					p.Disagreements++
+				}
+			}
+			break
+		}
 	}
 	p.cache[key] = res
 	return res
